@@ -205,3 +205,35 @@ Example C05_log_add_source_tie_nonvacuous :
   (CmsLog.lcms s 0%nat 0%nat, CmsLog.lcms s 1%nat 1%nat, CmsLog.lcms s 1%nat 0%nat, CmsLog.lcms s 2%nat 2%nat, CmsLog.ln_added s)
   = (4, 4, 0, 0, 4).
 Proof. split; [|split; [|split; [|split; [|split; [|split]]]]]; try (vm_compute; reflexivity). intros r c. vm_compute. split; discriminate. Qed.
+
+(* ---------------- source tie (class-level add wrappers) ----------------
+   CountMinLinear.add / CountMinLog16.add / CountMinLog8.add as regenerated from the source AST on this run
+   (generated/KernelsApi.v): the multiplicity the wrapper hands to the kernel (linear: clamped at uint_maxval; log: unchanged,
+   the kernel's result written back to self.rand_ptr) is the model's class glue *)
+From Sketchnu Require KernelsApi KernelTieApiLinear.
+Theorem C05_api_linear_source_tie :
+  (forall v, KernelsApi.gen_api_linear_add_value v CmsLinear.cap = Some (Z.min v CmsLinear.cap)) /\
+  KernelsApi.gen_api_linear_add_writes_back = false /\
+  (forall depth bucket (s : CmsLinear.sk) (k : key) (v : Z),
+     option_map (CmsLinear.add_linear depth bucket s k) (KernelsApi.gen_api_linear_add_value v CmsLinear.cap)
+       = Some (CmsLinear.cls_add depth bucket s k v)).
+Proof. exact KernelTieApiLinear.tie_api_linear. Qed.
+Print Assumptions C05_api_linear_source_tie.
+
+From Sketchnu Require KernelTieApiLog.
+Theorem C05_api_log_source_tie :
+  (forall v u, KernelsApi.gen_api_log16_add_value v u = Some v) /\ (forall v u, KernelsApi.gen_api_log8_add_value v u = Some v) /\
+  KernelsApi.gen_api_log16_add_writes_back = true /\ KernelsApi.gen_api_log8_add_writes_back = true /\
+  (forall depth bucket nr umax powneg castc (s : CmsLog.lsk) (k : key) (v u : Z),
+     option_map (CmsLog.add_log depth bucket nr umax powneg castc s k) (KernelsApi.gen_api_log16_add_value v u)
+       = Some (CmsLog.lcls_add depth bucket nr umax powneg castc s k v) /\
+     option_map (CmsLog.add_log depth bucket nr umax powneg castc s k) (KernelsApi.gen_api_log8_add_value v u)
+       = Some (CmsLog.lcls_add depth bucket nr umax powneg castc s k v)).
+Proof. exact KernelTieApiLog.tie_api_log. Qed.
+Print Assumptions C05_api_log_source_tie.
+
+Example C05_api_source_tie_nonvacuous :
+  map (fun v => KernelsApi.gen_api_linear_add_value v CmsLinear.cap) [0; 7; 2^32 - 1; 2^32; 2^40]
+  = [Some 0; Some 7; Some (2^32 - 1); Some (2^32 - 1); Some (2^32 - 1)] /\
+  KernelsApi.gen_api_log16_add_value (2^40) 65535 = Some (2^40) /\ KernelsApi.gen_api_log8_add_value 3 255 = Some 3.
+Proof. vm_compute. repeat split; reflexivity. Qed.
